@@ -81,7 +81,7 @@ def main():
         shutil.copytree("/repo", dst, ignore=shutil.ignore_patterns(".git", "__pycache__", "docs", "vendor", "CHANGES"))
         head_patch = os.path.join(src, "patch_on_head.diff")  # the same change re-made on top of our fix commits
         use = head_patch if os.path.exists(head_patch) else patch
-        rc, out = sh(f"patch -p1 -s -i {use}", cwd=dst)
+        rc, out = sh(f"patch -p1 -s -F0 -i {use}", cwd=dst)  # no fuzz: a hunk that lands somewhere else is another change
         if rc:
             print("patch does not apply on /repo HEAD (our fixes touched it?):", out[-300:])
             meta["applies_on_repo_head"] = False
